@@ -8,6 +8,7 @@
    makes "in memory" explicit: operations are executed by the measuring process itself or by
    forked processes (multiprocessing pool workers, a child process), and a process may or may
    not keep unpickled trees between operations (the implementation keeps nothing). *)
+From Coq Require Import Qround.
 From Verif Require Import Prelude.
 Open Scope Q_scope.
 
@@ -407,3 +408,66 @@ Definition c07_pcase (ph : list pcop) (zss : list (list Q)) (observed : list (li
            (loaded : list (list lobs)) (final : option obinning) : nat :=
   (c07_ccase (map erase_c ph) zss observed final
    + (if (length loaded =? length ph)%nat && peeks_agree ph zss loaded then 0 else 8))%nat.
+
+(* ---------- patch metadata (meta.yml) and the patch linkage of a measurement ---------- *)
+(* A Catalog object holds, per patch, the number of records, the sum of weights, the centre and
+   the radius (catalog/patch.py:Metadata).  The object that CREATES a cache computes them from the
+   records and writes them to meta.yml (once: the file is never rewritten); Catalog(cache)
+   (Reopen) reads the file instead of computing anything.  A measurement uses them twice: the
+   totals normalise the counts, and centre + radius decide which pairs of patches are counted at
+   all (correlation/measurements.py:PatchLinkage).  `enc` is what the writer makes of a value
+   (the code: the identity, float64 repr round-trips through YAML). *)
+Section MetaStore.
+  Context {M : Type}.
+  Record mst : Type := { mobj : list M;     (* what the Catalog object holds, per patch *)
+                         mfile : list M }.  (* what the meta.yml files hold *)
+  Definition m_create (enc : M -> M) (ms : list M) : mst := {| mobj := ms; mfile := map enc ms |}.
+  Definition mstep (s : mst) (o : cop) : mst :=
+    match o with
+    | All Reopen => {| mobj := mfile s; mfile := mfile s |}
+    | _ => s
+    end.
+  Definition mrun (h : list cop) (s : mst) : mst := fold_left mstep h s.
+  Fixpoint mstates (h : list cop) (s : mst) : list mst :=
+    match h with
+    | [] => []
+    | o :: r => let s' := mstep s o in s' :: mstates r s'
+    end.
+  Definition is_reopen (o : cop) : bool := match o with All Reopen => true | _ => false end.
+End MetaStore.
+
+(* the linkage: P = points of the sky with distance d; a patch is described by (centre, radius);
+   th = the largest angle at which the configuration counts a pair (get_max_angle);
+   counted p q = the pair is counted (its separation lies in some scale, at the redshift of p) *)
+Definition pmeta (P : Type) : Type := (P * Q)%type.   (* centre, radius *)
+Section Linkage.
+  Context {P : Type} (d : P -> P -> Q) (counted : P -> P -> bool) (th : Q).
+  Definition linked (a b : pmeta P) : bool := Qleb (d (fst a) (fst b)) (snd a + snd b + th).
+  Definition pairs (pa pb : list P) : nat := list_sum (map (fun p => count_if (counted p) pb) pa).
+  (* counts of a catalog pair, patch pair by patch pair; `use` says which patch pairs are visited *)
+  Definition count_with (use : pmeta P -> pmeta P -> bool) (ms : list (pmeta P)) (c1 c2 : list (list P)) : nat :=
+    list_sum (map (fun x => list_sum (map (fun y => if use (fst x) (fst y) then pairs (snd x) (snd y) else O)
+                                          (combine ms c2)))
+                  (combine ms c1)).
+  Definition count_linked : list (pmeta P) -> list (list P) -> list (list P) -> nat := count_with linked.
+  Definition count_all : list (pmeta P) -> list (list P) -> list (list P) -> nat := count_with (fun _ _ => true).
+  (* the radius contains every record of the patch *)
+  Definition covers (m : pmeta P) (pts : list P) : Prop := forall p, In p pts -> d (fst m) p <= snd m.
+  Definition covers_all (ms : list (pmeta P)) (cat : list (list P)) : Prop :=
+    Forall (fun x => covers (fst x) (snd x)) (combine ms cat).
+End Linkage.
+
+(* a writer that keeps k decimals of centre and radius (round half up), on the line *)
+Definition round_dec (k : positive) (x : Q) : Q := Qfloor (x * (Zpos k # 1) + (1 # 2)) # k.
+Definition enc_round (k : positive) (m : pmeta Q) : pmeta Q := (round_dec k (fst m), round_dec k (snd m)).
+(* a writer that keeps the centre and rounds the radius UP to k decimals *)
+Definition enc_up (k : positive) (m : pmeta Q) : pmeta Q := (fst m, Qceiling (snd m * (Zpos k # 1)) # k).
+Definition dline (a b : Q) : Q := Qabs (a - b).
+
+(* ---------- correspondence checker: the metadata a Catalog object reports ---------- *)
+(* one patch: [num_records; sum_weights; ra; dec; radius] as the object reports them (exact values
+   of the float64s); created: the object that created the cache; observed: the object in use after
+   every step of the labelled history (a Reopen step replaces it by Catalog(cache)) *)
+Definition c07_mcase (ph : list pcop) (created : list (list Q)) (observed : list (list (list Q))) : nat :=
+  code [ forallb2 (fun s row => list_eqb qlist_eqb (mobj s) row)
+                  (mstates (map erase_c ph) (m_create (fun m => m) created)) observed ].
